@@ -11,8 +11,8 @@ EXTENDS Props, Json, IOUtils
 
 Batch == JsonDeserialize(IOEnv.TRACE_FILE)
 
-VARIABLES tr, nd, h, bad
-vars == <<tr, nd, h, bad>>
+VARIABLES tr, nd, h, bad, ex
+vars == <<tr, nd, h, bad, ex>>
 
 Obs0 == [wf |-> "null", seq |-> << >>, staged |-> << >>, ctxs |-> << >>, routes |-> << >>,
          ptr |-> << >>, errs |-> << >>, hasout |-> FALSE, out |-> << >>, reruns |-> << >>,
@@ -28,6 +28,7 @@ Init == /\ tr \in 1..Len(Batch)
         /\ nd = 0
         /\ h = HInit(Batch[tr].def)
         /\ bad = {}
+        /\ ex = {}
 
 Next == /\ bad = {}
         /\ \E i \in 1..Len(KidsOf(tr, nd)) :
@@ -37,7 +38,11 @@ Next == /\ bad = {}
                  prev == ObsAt(tr, nd)
                  h1   == HStep(d, h, prev, step)
                  fs   == Failing(d, h, h1, prev, step)
+                 ex1  == ex \cup Triggers(d, h, h1, prev, step)
              IN /\ nd' = k
+                /\ ex' = ex1
+                \* vacuity accounting: the situations met on the way to a leaf
+                /\ (Node(tr, k).kids = << >>) => PrintT(<<"E", ex1>>)
                 /\ tr' = tr
                 /\ h' = HLatch(h1, step)
                 \* the descent is cut by a false clause of the checked property, and below any step
